@@ -384,3 +384,61 @@ func VerifHarness_C12_insync() {
 	}
 	verifrt.Reach("C12.insync.done")
 }
+
+// VerifHarness_C12_restart: a transaction that only untrusted peers ever delivered, then a clean
+// restart of the node (Node.Run's saves, a new node on the same storage), then the safe delay: the
+// restart is not a trusted peer, the transaction stays not-safe until the trusted peer vouches.
+func VerifHarness_C12_restart() {
+	ctx := context.Background()
+	k, err := vkNewNode(ctx, nil)
+	verifrt.Assert(err == nil, "C12.kit.node-loads")
+	k.node.state.SetInSync()
+	k.node.config.SafeTxDelay = 1000
+	u := vkUntrusted(ctx, k, "peer1", true)
+	u.outgoing.Open(100)
+	t := vkTx(67, []int{4}, true)
+	tid := *t.TxHash()
+	verifrt.Assert(u.handleMessage(ctx, t) == nil, "C12.restart.untrusted-tx-handled")
+	verifrt.Assert(vkDrainTxs(ctx, k) == nil, "C12.untrusted.processing-no-error")
+	verifrt.Assert(len(k.rec.of("tx", tid)) == 1, "C12.restart.delivered")
+	if verifrt.Choose("block-before-the-restart", 2) == 1 {
+		verifrt.Assert(k.node.ProcessBlock(ctx, vkBlock(*k.node.blocks.LastHash(), 1, nil)) == nil, "C12.restart.block-processed")
+	}
+	k.node.blocks.Save(ctx)
+	k.node.txs.Save(ctx)
+	k.node.peers.Save(ctx)
+	k2, rerr := vkNewNode(ctx, k.store)
+	verifrt.Assert(rerr == nil, "C12.restart.loads")
+	if rerr != nil {
+		return
+	}
+	k2.node.state.SetInSync()
+	k2.node.config.SafeTxDelay = 1000
+	vouch := verifrt.Choose("trusted-peer-vouches-after-the-restart", 2) == 1
+	if vouch {
+		inv := wire.NewMsgInv()
+		inv.AddInvVect(wire.NewInvVect(wire.InvTypeTx, &tid))
+		verifrt.Assert(k2.node.handleMessage(ctx, inv) == nil, "C12.restart.trusted-inv-handled")
+	}
+	verifrt.Advance(3 * time.Second)
+	sleeps := 0
+	verifrt.OnSleep(func(d time.Duration) {
+		sleeps++
+		if sleeps >= 2 {
+			k2.node.lock.Lock()
+			k2.node.stopping = true
+			k2.node.lock.Unlock()
+		}
+	})
+	k2.node.checkTxDelays(ctx)
+	verifrt.OnSleep(nil)
+	safe := false
+	for _, e := range k2.rec.of("update", tid) {
+		if e.state.Safe {
+			safe = true
+		}
+	}
+	verifrt.Sig("restart", "vouched")
+	verifrt.Assert(safe == vouch, "C12.restart.safe-only-after-the-trusted-peer-vouched")
+	verifrt.Reach("C12.restart.done")
+}
